@@ -26,6 +26,8 @@ int SIGS[NSG];
 // ops: ev <loop> <sigmask 1..7> <oneshot>      en|dis|del <e>      raise <s> <via 0 driver, k>0 loop k-1>
 //      pair <e1> <k1> <e2> <k2>   two subscription changes (k: 0 enable, 1 disable) posted to their loops at once, i.e. concurrently
 //                                 on different threads; the driver waits for both before anything else happens
+//      addsig <e> <s>             one more signal is added to event e with initialize(signo, mode) (whether or not it is enabled) and it is enabled (again)
+//      rcb <s1> <via> <e2> <s2>   like raise s1, but the first callback of that delivery enables event e2 (through its own loop) and raises s2 from inside the callback
 //      craise <e> <k> <s> <via>   a subscription change of event e (which is not subscribed to signal s) is posted to its loop and, without
 //                                 waiting for it, signal s is raised from another thread: the delivery overlaps the change
 void generate(sim::Rng &r, uint64_t seed, const std::string &tier, sim::Plan &p) {
@@ -37,7 +39,8 @@ void generate(sim::Rng &r, uint64_t seed, const std::string &tier, sim::Plan &p)
   p.cfg["starve_max"] = nl;
   p.cfg["pct_horizon"] = 400;
   long nev = r.range(1, MAXEV);
-  for (long e = 0; e < nev; ++e) { sim::Op op; op.kind = "ev"; op.a = {(long)r.below((uint64_t)nl), r.chance(650) ? (1L << r.below(3)) : r.range(1, 7), r.chance(250) ? 1 : 0}; p.ops.push_back(op); }
+  std::vector<long> masks;
+  for (long e = 0; e < nev; ++e) { sim::Op op; op.kind = "ev"; op.a = {(long)r.below((uint64_t)nl), r.chance(650) ? (1L << r.below(3)) : r.range(1, 7), r.chance(250) ? 1 : 0}; masks.push_back(op.a[1]); p.ops.push_back(op); }
   int n = (int)r.range(2, thorough ? 40 : 18);
   for (int i = 0; i < n; ++i) {
     sim::Op op;
@@ -45,8 +48,16 @@ void generate(sim::Rng &r, uint64_t seed, const std::string &tier, sim::Plan &p)
     if (x < 30) { op.kind = "en"; op.a = {(long)r.below((uint64_t)nev)}; }
     else if (x < 45) { op.kind = "dis"; op.a = {(long)r.below((uint64_t)nev)}; }
     else if (x < 52) { op.kind = "del"; op.a = {(long)r.below((uint64_t)nev)}; }
-    else if (x < 58) { op.kind = "craise"; op.a = {(long)r.below((uint64_t)nev), (long)r.below(2), (long)r.below(NSG), (long)r.below((uint64_t)nl + 1)}; }
-    else if (x < 68 && nl > 1) { op.kind = "pair"; op.a = {(long)r.below((uint64_t)nev), (long)r.below(2), (long)r.below((uint64_t)nev), (long)r.below(2)}; }
+    else if (x < 55) { op.kind = "addsig"; op.a = {(long)r.below((uint64_t)nev), (long)r.below(NSG)}; }
+    else if (x < 62) {
+      // e2 and one of its signals; the first delivery is of a signal e2 is not subscribed to
+      long e2 = (long)r.below((uint64_t)nev), s2 = (long)r.below(NSG), s1 = (long)r.below(NSG);
+      for (int k = 0; k < 3 && !(masks[(size_t)e2] & (1L << s2)); ++k) s2 = (s2 + 1) % NSG;
+      for (int k = 0; k < 3 && ((masks[(size_t)e2] & (1L << s1)) || s1 == s2); ++k) s1 = (s1 + 1) % NSG;
+      op.kind = "rcb"; op.a = {s1, (long)r.below((uint64_t)nl + 1), e2, s2};
+    }
+    else if (x < 66) { op.kind = "craise"; op.a = {(long)r.below((uint64_t)nev), (long)r.below(2), (long)r.below(NSG), (long)r.below((uint64_t)nl + 1)}; }
+    else if (x < 72 && nl > 1) { op.kind = "pair"; op.a = {(long)r.below((uint64_t)nev), (long)r.below(2), (long)r.below((uint64_t)nev), (long)r.below(2)}; }
     else { op.kind = "raise"; op.a = {(long)r.below(NSG), (long)r.below((uint64_t)nl + 1)}; }
     p.ops.push_back(op);
   }
@@ -54,8 +65,10 @@ void generate(sim::Rng &r, uint64_t seed, const std::string &tier, sim::Plan &p)
 }
 
 struct Ev { SignalEvent *ev = nullptr; int loop = 0; int mask = 0; bool oneshot = false, enabled = false, exists = false; };
+struct CbAct { bool armed = false; int e2 = -1; int signo2 = 0; };
 struct World {
   int nl = 0;
+  CbAct act;
   Loop *loops[MAXLOOP];
   int loop_tid[MAXLOOP];
   Ev ev[MAXEV]; int nev = 0;
@@ -100,6 +113,17 @@ void on_loop(int l, std::function<void()> f) {
   if (sim::cell_get(C_ACKS) < want) sim::violation("C04/posted-operation-never-ran", "an operation posted to a loop thread did not run within 100 s of virtual time");
 }
 
+// the action armed by an rcb op, performed once, inside the first callback of the delivery
+void on_callback_action(int carrier) {
+  if (!W.act.armed) return;
+  W.act.armed = false;
+  int e2 = W.act.e2;
+  if (W.ev[e2].loop == W.ev[carrier].loop) { if (!W.ev[e2].ev->enable()) sim::violation("C04/enable-failed", "enable() of a signal event failed"); }
+  else on_loop(W.ev[e2].loop, [e2] { if (!W.ev[e2].ev->enable()) sim::violation("C04/enable-failed", "enable() of a signal event failed"); });
+  sim::trace("callback of event %d enabled event %d and raises signal %d", carrier, e2, W.act.signo2);
+  { sim::NoSched ns; raise(W.act.signo2); }
+}
+
 void execute(const sim::Plan &plan) {
   SIGS[0] = SIGUSR1; SIGS[1] = SIGUSR2; SIGS[2] = SIGRTMIN + 1;
   sim::start(plan);
@@ -132,7 +156,7 @@ void execute(const sim::Plan &plan) {
     for (int s = 0; s < NSG; ++s) if (e.mask & (1 << s)) ss.insert(SIGS[s]);
     e.ev->initialize(ss, e.oneshot ? Event::Mode::kOneshot : Event::Mode::kPersist);
     int idx = W.nev;
-    e.ev->setCallback([idx](int signo) { sim::hist(H_CB, idx, signo); });
+    e.ev->setCallback([idx](int signo) { sim::hist(H_CB, idx, signo); on_callback_action(idx); });
     e.exists = true;
     ++W.nev;
   }
@@ -154,6 +178,18 @@ void execute(const sim::Plan &plan) {
       else if (op.kind == "dis") { on_loop(E.loop, [e] { W.ev[e].ev->disable(); }); E.enabled = false; }
       else { on_loop(E.loop, [e] { delete W.ev[e].ev; W.ev[e].ev = nullptr; }); E.enabled = false; E.exists = false; }
       check_dispositions(op.kind.c_str());
+    } else if (op.kind == "addsig") {
+      if (W.nev == 0) continue;
+      int e = (int)(((op.arg(0) % W.nev) + W.nev) % W.nev);
+      int sidx = (int)(((op.arg(1) % NSG) + NSG) % NSG);
+      Ev &E = W.ev[e];
+      if (!E.exists) continue;
+      sim::relevant();
+      int signo = SIGS[sidx]; bool oneshot = E.oneshot;
+      on_loop(E.loop, [e, signo, oneshot] { W.ev[e].ev->initialize(signo, oneshot ? Event::Mode::kOneshot : Event::Mode::kPersist); if (!W.ev[e].ev->enable()) sim::violation("C04/enable-failed", "enable() of a signal event failed"); });
+      E.mask |= (1 << sidx); E.enabled = true;
+      sim::probe("signals_added_to_live_events");
+      check_dispositions("addsig");
     } else if (op.kind == "pair") {
       if (W.nev < 2) continue;
       int e1 = (int)(((op.arg(0) % W.nev) + W.nev) % W.nev), e2 = (int)(((op.arg(2) % W.nev) + W.nev) % W.nev);
@@ -167,6 +203,54 @@ void execute(const sim::Plan &plan) {
       if (sim::cell_get(C_ACKS) < want) sim::violation("C04/posted-operation-never-ran", "concurrent subscription changes did not complete within 100 s of virtual time");
       W.ev[e1].enabled = en1; W.ev[e2].enabled = en2;
       check_dispositions("concurrent subscription changes on two loops");
+    } else if (op.kind == "rcb") {
+      if (W.nev == 0) continue;
+      int s1 = (int)(((op.arg(0) % NSG) + NSG) % NSG), s2 = (int)(((op.arg(3) % NSG) + NSG) % NSG);
+      int e2 = (int)(((op.arg(2) % W.nev) + W.nev) % W.nev);
+      if (s1 == s2 || !W.ev[e2].exists || !(W.ev[e2].mask & (1 << s2)) || (W.ev[e2].mask & (1 << s1))) continue;
+      std::vector<int> expect1, expect2;
+      bool overlap = false;
+      for (int e = 0; e < W.nev; ++e) {
+        if (!W.ev[e].exists) continue;
+        if (W.ev[e].enabled && (W.ev[e].mask & (1 << s1))) { expect1.push_back(e); if (W.ev[e].mask & (1 << s2)) overlap = true; }
+        if ((W.ev[e].enabled || e == e2) && (W.ev[e].mask & (1 << s2))) expect2.push_back(e);
+      }
+      if (expect1.empty() || overlap) continue;    // somebody must get the first delivery; nobody may be subscribed to both (order inside one dispatch is free)
+      uint64_t mark = sim::hist(H_RAISE, s1, (long)expect1.size());
+      sim::relevant();
+      sim::probe("raises_from_inside_a_callback");
+      int via = (int)(((op.arg(1) % (W.nl + 1)) + W.nl + 1) % (W.nl + 1));
+      int signo1 = SIGS[s1], signo2 = SIGS[s2];
+      W.act.armed = true; W.act.e2 = e2; W.act.signo2 = signo2;
+      if (via == 0) { sim::NoSched ns; raise(signo1); }
+      else on_loop(via - 1, [signo1] { sim::NoSched ns; raise(signo1); });
+      for (int i = 0; i < 200 && W.act.armed; ++i) sim::sleep_ns(1000000);
+      sim::sleep_ns(8 * 1000000);                 // quiescence: every loop has served its pipe, twice
+      sim::hist(H_QUIET, s1);
+      bool ran = !W.act.armed; W.act.armed = false;
+      std::vector<int> c1((size_t)W.nev, 0), c2((size_t)W.nev, 0); int sent1 = 0, sent2 = 0;
+      for (const sim::HEvent &h : sim::history()) {
+        if (h.seq <= mark) continue;
+        if (h.kind == H_CB) {
+          if (h.a < 0 || h.a >= W.nev) continue;
+          if (h.b == signo1) ++c1[(size_t)h.a]; else if (h.b == signo2) ++c2[(size_t)h.a];
+          else sim::violation("C04/callback-for-other-signal", "a callback reported a signal that was not raised");
+          if (h.tid != W.loop_tid[W.ev[h.a].loop]) sim::violation("C04/callback-on-wrong-thread", sim::fmt("callback of event %ld ran on T%d, its loop runs on T%d", h.a, h.tid, W.loop_tid[W.ev[h.a].loop]));
+        } else if (h.kind == H_SENTINEL) { if (h.a == signo1) ++sent1; else if (h.a == signo2) ++sent2; }
+      }
+      if (ran) W.ev[e2].enabled = true; else expect2.clear();
+      for (int e = 0; e < W.nev; ++e) {
+        bool x1 = std::find(expect1.begin(), expect1.end(), e) != expect1.end(), x2 = std::find(expect2.begin(), expect2.end(), e) != expect2.end();
+        if (x1 && c1[(size_t)e] != 1) sim::violation(c1[(size_t)e] == 0 ? "C04/subscriber-missed-delivery" : "C04/subscriber-called-twice", sim::fmt("one delivery of signal #%d produced %d callbacks on enabled event %d", s1, c1[(size_t)e], e));
+        if (!x1 && c1[(size_t)e] != 0) sim::violation("C04/callback-on-unsubscribed-event", sim::fmt("event %d is disabled, destroyed or not subscribed to signal #%d but its callback ran", e, s1));
+        if (x2 && c2[(size_t)e] != 1) sim::violation(c2[(size_t)e] == 0 ? "C04/subscriber-missed-delivery" : "C04/subscriber-called-twice", sim::fmt("signal #%d raised from inside a callback (after event %d had been enabled) produced %d callbacks on enabled event %d (loop %d)", s2, e2, c2[(size_t)e], e, W.ev[e].loop));
+        if (!x2 && c2[(size_t)e] != 0) sim::violation("C04/callback-on-unsubscribed-event", sim::fmt("event %d is disabled, destroyed or not subscribed to signal #%d but its callback ran", e, s2));
+      }
+      if (W.base[s1] <= 1 && sent1 != 1) sim::violation("C04/previous-handler-not-chained", sim::fmt("the handler installed before the first subscription was invoked %d times for one delivery", sent1));
+      if (ran && W.base[s2] <= 1 && sent2 != 1) sim::violation("C04/previous-handler-not-chained", sim::fmt("the handler installed before the first subscription was invoked %d times for the delivery raised from inside a callback", sent2));
+      for (int e : expect1) if (W.ev[e].oneshot) { W.ev[e].enabled = false; if (W.ev[e].ev->isEnabled()) sim::violation("C04/oneshot-still-enabled", "a one-shot signal event is still enabled after it fired"); }
+      for (int e : expect2) if (W.ev[e].oneshot) { W.ev[e].enabled = false; if (W.ev[e].ev->isEnabled()) sim::violation("C04/oneshot-still-enabled", "a one-shot signal event is still enabled after it fired"); }
+      check_dispositions("after a delivery raised from inside a callback");
     } else if (op.kind == "raise" || op.kind == "craise") {
       bool conc = op.kind == "craise";
       int s = (int)(((op.arg(conc ? 2 : 0) % NSG) + NSG) % NSG);
